@@ -47,11 +47,12 @@ Theorem C07_roundtrip : forall obj fld w e use_try ee,
 Proof. exact roundtrip. Qed.
 
 (* The infallible getter.  Whenever the generator chooses `unsafe { raw.try_into().unwrap_unchecked() }` for a
-   field f of an accepted device — which it does for a non-`try` conversion whose type name is that of a
-   generated enum analysed Infallible{bits} with width(f) <= bits, be it the enum's own field or ANOTHER field
-   naming the enum (reuse) — the conversion succeeds for every bit pattern p of the field: the getter never
+   field f of an accepted device — which it does (rule of 6916a8d) for a non-`try` conversion whose type name is
+   that of at least one generated enum and EVERY generated enum of that name is analysed Infallible{bits} with
+   width(f) <= bits, be it the enum's own field or ANOTHER field naming the enum (reuse) — the conversion succeeds for every bit pattern p of the field: the getter never
    reaches the unchecked unwrap of an Err (undefined behaviour).
-   All cfg-gated variants are treated as present (cfg-free scope).  Fields of base `uint`, and `int` fields
+   Here all cfg-gated items are treated as present (the build in which every cfg predicate holds); the statement
+   for EVERY build is C07_infallible_getter_total_any_build below.  Fields of base `uint`, and `int` fields
    narrower than their carrier, need no further hypothesis (the loads never sign-extend, so the raw value is
    the bit pattern).  For an `int` field that fills its carrier (8, 16, ... bits) the raw value is negative when
    the top bit is set; there the hypothesis is what rustc enforces on the emitted code (deny-by-default lint
@@ -164,16 +165,61 @@ Example C07_int_examples :
 Proof. vm_compute. repeat split. Qed.
 
 
-(* ---------------- builds: the statement is FALSE once cfg gates are involved ---------------- *)
+(* ---------------- builds (cfg gates) ---------------- *)
 
-(* Genuine defect (found by this check; see notes/C07-C15.md).  names_unique keys generated enums on
-   (name, cfg), so two enums of the same name under different cfgs are accepted; the conversion-method choice
-   then looks the reused name up by NAME ONLY and takes the first hit.  Witness:
+(* FULL STATEMENT, every build (true since 6916a8d, the repair of D18).  [env] decides every cfg predicate; the
+   build contains exactly the generated enums whose object and field are switched on; the conversion-method choice
+   is made once, cfg-blind, over ALL generated enums of the name (collect_enums d).  If it is the unchecked
+   conversion, the getter of f is defined for every bit pattern in EVERY build: whichever same-named enum the
+   name resolves to in that build is one of the enums the rule quantified over.  No cfg_free hypothesis.
+   The side condition is the one of C07_infallible_getter_total (rustc's literal check for an `int` field that
+   fills its carrier), asked only of the enum present in that build.
+   (When the build contains NO enum of that name the model's getter is [GPlain] — "a type the model knows
+   nothing about", as for user types; such a build does not compile, so nothing runs.) *)
+Theorem C07_infallible_getter_total_any_build : forall env d f name p,
+  enum_values_check d = VOk ->
+  conv_choice (collect_enums d) f = CMUnsafeInto name ->
+  0 <= p < 2 ^ field_width f ->
+  (f_base f = BInt -> field_width f = carrier_bits (field_width f) ->
+   forall ee v, resolve (emitted_enums_env env d) name = Some ee -> In v (ee_variants ee) ->
+                ev_num v <= 2 ^ (field_width f - 1) - 1) ->
+  exists x, getter_env env d f p = Ok x.
+Proof. exact infallible_getter_total_any_build. Qed.
+
+(* the same under the verdict of the enum pass as it is now (it accepts less: C15_repaired_accepts_less) *)
+Theorem C07_infallible_getter_total_any_build_current_pass : forall env d f name p,
+  enum_values_check_repaired d = VOk ->
+  conv_choice (collect_enums d) f = CMUnsafeInto name ->
+  0 <= p < 2 ^ field_width f ->
+  (f_base f = BInt -> field_width f = carrier_bits (field_width f) ->
+   forall ee v, resolve (emitted_enums_env env d) name = Some ee -> In v (ee_variants ee) ->
+                ev_num v <= 2 ^ (field_width f - 1) - 1) ->
+  exists x, getter_env env d f p = Ok x.
+Proof. exact infallible_getter_total_any_build_repaired. Qed.
+
+(* Corollary (this was the strongest true statement before 6916a8d): when no object or field carrying a generated
+   enum is cfg-gated, every build contains every enum and the infallible getter is total in every build. *)
+Theorem C07_infallible_getter_total_partial : forall env d f name p,
+  cfg_free d ->
+  enum_values_check d = VOk ->
+  conv_choice (collect_enums d) f = CMUnsafeInto name ->
+  0 <= p < 2 ^ field_width f ->
+  (f_base f = BInt -> field_width f = carrier_bits (field_width f) ->
+   forall ee v, resolve (emitted_enums d) name = Some ee -> In v (ee_variants ee) ->
+                ev_num v <= 2 ^ (field_width f - 1) - 1) ->
+  exists x, getter_env env d f p = Ok x.
+Proof. exact infallible_getter_total_cfg_free. Qed.
+
+(* HISTORICAL — defect D18 (found by this check; see notes/C07-C15.md), repaired by 6916a8d.  names_unique keys
+   generated enums on (name, cfg), so two enums of the same name under different cfgs are accepted; the
+   conversion-method choice of before 6916a8d ([conv_choice_first_hit]) looked the reused name up by NAME ONLY and
+   took the first hit.  Witness:
        #[cfg(feature = "a")]      register Ra { xx: uint as     enum En { Aa, Bb, Cc, Dd } = 0..2 }
        #[cfg(not(feature = "a"))] register Rb { yy: uint as try enum En { Aa }             = 0..2 }
                                   register Rc { zz: uint as En                              = 0..2 }
-   zz gets the unchecked getter because the FIRST En is Infallible{2}; in the build without feature "a" the
-   only En is the one-variant TryFrom enum, and zz() on the bit pattern 1 unwraps an Err unchecked. *)
+   zz got the unchecked getter because the FIRST En is Infallible{2}; in the build without feature "a" the
+   only En is the one-variant TryFrom enum, and zz() on the bit pattern 1 unwrapped an Err unchecked.
+   The statement below is about the OLD rule only; under the current rule it is C07_cfg_examples that holds. *)
 Definition cfg_a : string := "feature = ""a""".
 Definition cfg_not_a : string := "not(feature = ""a"")".
 Definition regc (c : cfg) (n : string) (a : Z) (fs : list field) : object :=
@@ -186,34 +232,53 @@ Definition d_cfg := dev
     regc (Some cfg_not_a) "Rb" 1 [fld "yy" BUint 0 2 (Some (ConvEnum (en "En" [var "Aa" EVUnspec]) true))];
     regc None "Rc" 2 [f_zz] ].
 Definition build_without_a : cfg_env := fun c => String.eqb c cfg_not_a.
+Definition build_with_a : cfg_env := fun c => String.eqb c cfg_a.
 
 Theorem C07_cfg_reuse_refuted :
   exists env d f name p,
-    enum_values_check d = VOk /\ conv_choice (collect_enums d) f = CMUnsafeInto name /\
+    enum_values_check d = VOk /\ conv_choice_first_hit (collect_enums d) f = CMUnsafeInto name /\
     0 <= p < 2 ^ field_width f /\ f_base f = BUint /\
-    getter_env env d f p = Fail UB_unwrap_unchecked.
+    getter_env_first_hit env d f p = Fail UB_unwrap_unchecked.
 Proof. exists build_without_a, d_cfg, f_zz, "En", 1. vm_compute. repeat split; discriminate. Qed.
 
-(* The strongest true statement: when no object or field carrying a generated enum is cfg-gated, every build
-   contains every enum and the infallible getter is total in every build. *)
-Theorem C07_infallible_getter_total_partial : forall env d f name p,
-  cfg_free d ->
-  enum_values_check d = VOk ->
-  conv_choice (collect_enums d) f = CMUnsafeInto name ->
-  0 <= p < 2 ^ field_width f ->
-  (f_base f = BInt -> field_width f = carrier_bits (field_width f) ->
-   forall ee v, resolve (emitted_enums d) name = Some ee -> In v (ee_variants ee) ->
-                ev_num v <= 2 ^ (field_width f - 1) - 1) ->
-  exists x, getter_env env d f p = Ok x.
-Proof. exact infallible_getter_total_any_build. Qed.
+(* a cfg-gated family in which the unchecked conversion IS chosen (both same-named enums are Infallible{2}: one by
+   coverage, one by a catch-all), and a narrower one (the second En is Infallible{1} only: plain Into) *)
+Definition d_cfg_both := dev
+  [ regc (Some cfg_a) "Ra" 0 [fld "xx" BUint 0 2 (Some (ConvEnum (en "En" [var "Aa" EVUnspec; var "Bb" EVUnspec; var "Cc" EVUnspec; var "Dd" EVUnspec]) false))];
+    regc (Some cfg_not_a) "Rb" 1 [fld "yy" BUint 0 2 (Some (ConvEnum (en "En" [var "Aa" EVUnspec; var "Rest" EVCatchAll]) false))];
+    regc None "Rc" 2 [f_zz] ].
+Definition d_cfg_narrow := dev
+  [ regc (Some cfg_a) "Ra" 0 [fld "xx" BUint 0 2 (Some (ConvEnum (en "En" [var "Aa" EVUnspec; var "Bb" EVUnspec; var "Cc" EVUnspec; var "Dd" EVUnspec]) false))];
+    regc (Some cfg_not_a) "Rb" 1 [fld "yy" BUint 0 1 (Some (ConvEnum (en "En" [var "Aa" EVUnspec; var "Rest" EVCatchAll]) false))];
+    regc None "Rc" 2 [f_zz] ].
 
 Example C07_cfg_examples :
   cfg_free d_reuse /\
-  (* in the build WITH feature "a" the same getter is fine on every pattern *)
-  forallb (fun p => is_ok (getter_env (fun c => String.eqb c cfg_a) d_cfg f_zz p)) [0; 1; 2; 3] = true /\
-  map (fun p => token_of_getter p (getter_env build_without_a d_cfg f_zz p)) [0; 1; 2; 3] = [TUnit "Aa"; TUB; TUB; TUB].
+  (* the D18 witness is accepted by both models of the enum pass; it is not cfg-free *)
+  enum_values_check d_cfg = VOk /\ enum_values_check_repaired d_cfg = VOk /\
+  (* CURRENT rule: zz converts with plain Into (not every En is infallible) ... *)
+  conv_choice (collect_enums d_cfg) f_zz = CMInto "En" /\
+  (* ... so in the build without feature "a" the getter does not compile (the only En has no From) — never UB *)
+  map (fun p => getter_env build_without_a d_cfg f_zz p) [0; 1; 2; 3] =
+    [Fail NoFromImpl; Fail NoFromImpl; Fail NoFromImpl; Fail NoFromImpl] /\
+  map (fun p => token_of_getter p (getter_env build_without_a d_cfg f_zz p)) [0; 1; 2; 3] = [TNoCompile; TNoCompile; TNoCompile; TNoCompile] /\
+  (* (with feature "a" the only En is total by coverage, TryFrom only: Into does not compile there either) *)
+  map (fun p => token_of_getter p (getter_env build_with_a d_cfg f_zz p)) [0; 1; 2; 3] = [TNoCompile; TNoCompile; TNoCompile; TNoCompile] /\
+  (* OLD rule: unchecked conversion, fine with feature "a", UB on patterns 1..3 without *)
+  conv_choice_first_hit (collect_enums d_cfg) f_zz = CMUnsafeInto "En" /\
+  forallb (fun p => is_ok (getter_env_first_hit build_with_a d_cfg f_zz p)) [0; 1; 2; 3] = true /\
+  map (fun p => token_of_getter p (getter_env_first_hit build_without_a d_cfg f_zz p)) [0; 1; 2; 3] = [TUnit "Aa"; TUB; TUB; TUB] /\
+  (* hypotheses of C07_infallible_getter_total_any_build met on a cfg-GATED definition, in both builds *)
+  enum_values_check d_cfg_both = VOk /\ conv_choice (collect_enums d_cfg_both) f_zz = CMUnsafeInto "En" /\
+  map (fun p => token_of_getter p (getter_env build_with_a d_cfg_both f_zz p)) [0; 1; 2; 3] = [TUnit "Aa"; TUnit "Bb"; TUnit "Cc"; TUnit "Dd"] /\
+  map (fun p => token_of_getter p (getter_env build_without_a d_cfg_both f_zz p)) [0; 1; 2; 3] = [TUnit "Aa"; TCatchRaw "Rest"; TCatchRaw "Rest"; TCatchRaw "Rest"] /\
+  (* one same-named enum Infallible for a narrower width only: Into (it has From: fine without "a", no From with "a") *)
+  conv_choice (collect_enums d_cfg_narrow) f_zz = CMInto "En" /\
+  conv_choice_first_hit (collect_enums d_cfg_narrow) f_zz = CMUnsafeInto "En" /\
+  map (fun p => token_of_getter p (getter_env build_without_a d_cfg_narrow f_zz p)) [0; 3] = [TUnit "Aa"; TCatchRaw "Rest"] /\
+  map (fun p => token_of_getter p (getter_env build_with_a d_cfg_narrow f_zz p)) [0; 3] = [TNoCompile; TNoCompile].
 Proof.
-  split; [|vm_compute; split; reflexivity].
+  split; [|vm_compute; repeat split].
   intros s Hs c Hc. vm_compute in Hs.
   destruct Hs as [<-|[]]. cbn in Hc. destruct Hc as [<-|[<-|[]]]; reflexivity.
 Qed.
@@ -225,3 +290,5 @@ Print Assumptions C07_infallible_getter_total.
 Print Assumptions C07_int_full_width_guard_necessary.
 Print Assumptions C07_cfg_reuse_refuted.
 Print Assumptions C07_infallible_getter_total_partial.
+Print Assumptions C07_infallible_getter_total_any_build.
+Print Assumptions C07_infallible_getter_total_any_build_current_pass.
